@@ -76,6 +76,8 @@ def step (d : D) : List String → D × String
       | "inf" => some .inf | "-inf" => some .ninf | "nan" => some .nan
       | x => x.toInt?.map Metric.fin
     match parseIp a, parseIp m, parseIp nh, metric with
+    -- `RouteEntry` refuses a NaN metric (validator): the table is unchanged; every constructible table is nan-free
+    | some _, some _, some _, some .nan => (d, "refused")
     | some a, some m, some nh, some me => ({ d with tblM := d.tblM ++ [{ addr := a, mask := m, nextHop := nh, metric := me }] }, "ok")
     | _, _, _, _ => (d, "bad-op")
   | ["rtm-find", dst] =>
